@@ -42,6 +42,9 @@ CFG = {
     "C03": dict(pkg="core", test="^TestC03$", shards=(1, 1), checks=(1, 1)),
     "C04": dict(pkg="core", test="^TestC04$", shards=(8, 16), checks=(600, 12000)),
     "C05": dict(pkg="core", test="^TestC05", shards=(8, 16), checks=(8000, 40000)),
+    "C06": dict(pkg="core", test="^TestC06", shards=(8, 16), checks=(1500, 40000), steps=(60, 80)),
+    "C07": dict(pkg="core", test="^TestC07$", shards=(8, 16), checks=(1200, 40000)),
+    "C09": dict(pkg="core", test="^TestC09$", shards=(8, 16), checks=(3000, 100000)),
     "C11": dict(pkg="core", test="^TestC11$", shards=(8, 16), checks=(2500, 60000)),
     "C14": dict(pkg="core", test="^TestC14", shards=(4, 16), checks=(1000, 20000)),
     "C16": dict(pkg="core", test="^TestC16$", shards=(1, 1), checks=(1, 1)),
